@@ -155,7 +155,7 @@ func (g *Generator) generateMockMethod(
 	gf.P()
 
 	// Fill response fields
-	g.generateMockFieldAssignments(gf, method.Output, "resp")
+	g.generateMockFieldAssignments(gf, method.Output, "resp", map[protoreflect.FullName]bool{})
 
 	gf.P("return resp, nil")
 	gf.P("}")
@@ -165,12 +165,19 @@ func (g *Generator) generateMockMethod(
 }
 
 // generateMockFieldAssignments generates field assignments for a message.
+//
+// onPath holds the messages currently being filled (from the response type down to this one): a
+// message-typed field whose type is already on the path is left unset, so that recursive message
+// types produce a finite mock instead of recursing forever.
 func (g *Generator) generateMockFieldAssignments(
 	gf *protogen.GeneratedFile,
 	message *protogen.Message,
 	varName string,
+	onPath map[protoreflect.FullName]bool,
 ) {
 	messageName := string(message.Desc.Name())
+	onPath[message.Desc.FullName()] = true
+	defer delete(onPath, message.Desc.FullName())
 
 	for _, field := range message.Fields {
 		fieldName := field.GoName
@@ -199,12 +206,16 @@ func (g *Generator) generateMockFieldAssignments(
 			switch {
 			case field.Desc.IsMap():
 				// Handle map fields
-				g.generateMockMapFieldAssignment(gf, field, varName)
+				g.generateMockMapFieldAssignment(gf, field, varName, onPath)
 			case field.Desc.IsList():
 				gf.P("// TODO: Handle repeated message field ", fieldName)
 			default:
+				if onPath[field.Message.Desc.FullName()] {
+					gf.P("// ", fieldName, " is left unset: its type is the type being filled (recursive message)")
+					continue
+				}
 				gf.P(varName, ".", fieldName, " = &", field.Message.GoIdent, "{}")
-				g.generateMockFieldAssignments(gf, field.Message, varName+"."+fieldName)
+				g.generateMockFieldAssignments(gf, field.Message, varName+"."+fieldName, onPath)
 			}
 		case protoreflect.EnumKind,
 			protoreflect.Sint32Kind,
@@ -229,6 +240,7 @@ func (g *Generator) generateMockMapFieldAssignment(
 	gf *protogen.GeneratedFile,
 	field *protogen.Field,
 	varName string,
+	onPath map[protoreflect.FullName]bool,
 ) {
 	fieldName := field.GoName
 
@@ -255,10 +267,14 @@ func (g *Generator) generateMockMapFieldAssignment(
 			gf.QualifiedGoIdent(valueField.Message.GoIdent),
 			")",
 		)
+		if onPath[valueField.Message.Desc.FullName()] {
+			// recursive message type: leave the map empty
+			return
+		}
 		gf.P(varName, ".", fieldName, "[", sampleKey, "] = &", valueField.Message.GoIdent, "{}")
 		// Populate the value message fields
 		mapValueVar := varName + "." + fieldName + "[" + sampleKey + "]"
-		g.generateMockFieldAssignments(gf, valueField.Message, mapValueVar)
+		g.generateMockFieldAssignments(gf, valueField.Message, mapValueVar, onPath)
 	} else {
 		// Value is a scalar type
 		valueType := g.getGoTypeScalar(valueField)
